@@ -1,9 +1,9 @@
 SPECIFICATION Spec
 CONSTANTS P = {"a", "b", "c"}
-          Kind = "round"
+          Kinds = {"round", "save", "valid"}
           ThrVals = {0, 1, 2}
           CtVals = {0, 3}
           StLen = 2
-          OLen = 0
-          MaxVals = {0}
+          OLen = 2
+          MaxVals = {0, 1, 2}
 CHECK_DEADLOCK FALSE
